@@ -114,33 +114,32 @@ theorem sign_refuses_negative_oversized (pk : PublicKey) (order u : Int) (ms : L
 
 /-- C05-4: **randomisation keeps validity** (one step, any integer randomiser `r`).  Only `Z`
     and `S` have to be invertible modulo `n` (the randomised `v - e·r` is usually negative, so
-    `S⁻¹` is needed); `Randomize` drops `KeyshareP`, hence the hypothesis `keyshareP = none`. -/
+    `S⁻¹` is needed); `Randomize` keeps `KeyshareP` (since the repair of the hunting round), so
+    the statement covers signatures with a keyshare contribution too. -/
 theorem randomize_verifies (isPrime : Nat → Bool) (pk : PublicKey) (sig : CLSignature)
     (ms : List Int) (r : Int)
     (hn : 1 < pk.n) (hz0 : 0 ≤ pk.z) (hz1 : pk.z < pk.n)
     (hz : Int.gcd pk.z pk.n = 1) (hs : Int.gcd pk.s pk.n = 1)
-    (hkp : sig.keyshareP = none)
     (h : clVerifyWith isPrime pk sig ms = .ok true) :
     clVerifyWith isPrime pk (clRandomize pk sig r) ms = .ok true := by
   obtain ⟨n, hN⟩ : ∃ n : ℕ, pk.n = n := ⟨pk.n.toNat, (Int.toNat_of_nonneg (by omega)).symm⟩
   have hn' : 1 < n := by rw [hN] at hn; exact_mod_cast hn
   rw [hN] at hz hs
   exact clRandomize_verifies_aux isPrime pk sig ms r hN hn' hz0 hz1
-    ((isUnit_iff_gcd _).mpr hz) ((isUnit_iff_gcd _).mpr hs) hkp h
+    ((isUnit_iff_gcd _).mpr hz) ((isUnit_iff_gcd _).mpr hs) h
 
 /-- C05-4 (iterated): any number of randomisation steps keeps validity. -/
 theorem randomize_verifies_iter (isPrime : Nat → Bool) (pk : PublicKey) (sig : CLSignature)
     (ms : List Int) (rs : List Int)
     (hn : 1 < pk.n) (hz0 : 0 ≤ pk.z) (hz1 : pk.z < pk.n)
     (hz : Int.gcd pk.z pk.n = 1) (hs : Int.gcd pk.s pk.n = 1)
-    (hkp : sig.keyshareP = none)
     (h : clVerifyWith isPrime pk sig ms = .ok true) :
     clVerifyWith isPrime pk (rs.foldl (clRandomize pk) sig) ms = .ok true := by
   induction rs generalizing sig with
   | nil => exact h
   | cons r rs ih =>
-    exact ih (clRandomize pk sig r) rfl
-      (randomize_verifies isPrime pk sig ms r hn hz0 hz1 hz hs hkp h)
+    exact ih (clRandomize pk sig r)
+      (randomize_verifies isPrime pk sig ms r hn hz0 hz1 hz hs h)
 
 /-- the randomised signature keeps `e` and shifts `v` by `-e·r`. -/
 theorem randomize_e_v (pk : PublicKey) (sig : CLSignature) (r : Int) :
